@@ -134,6 +134,18 @@ def run(res, tier, seed):
     for c in cases:
         res.count(("balance", c.meta.get("op"), tuple(s // 64 for s in c.meta.get("shape", ()))))
         o = cout.get(c.id)
+        # with both caches compiled out every header and block goes straight to malloc/free: a double or invalid free
+        # that the header pool of the default build swallows ends the call here (glibc abort) - the fate counts too
+        fate = o[0] if o else "MISSING"
+        if fate != "OK" and ("fate", c.meta["op"]) not in seen:
+            e = engine.match_known("C11", c, {"fate": fate, "windowed": False})
+            if e is not None:
+                res.known_finding("%s: %s" % (e.get("id"), e.get("what")))
+            else:
+                seen.add(("fate", c.meta["op"]))
+                res.violation(vlib.write_replay("C11", "ts-" + c.meta["op"], "# C11: fate %s in the thread-safe build (no header pool, no block cache)\nmeta: %r\n--- script\n%s--- C side\n%s\n%s\n" % (
+                    fate, c.meta, c.text(), "\n".join(x[:300] for x in (o[1] if o else [])), o[2] if o else "")))
+            continue
         leaks = [l for l in (o[1] if o else []) if l.startswith("leak ")]
         if leaks and c.meta["op"] not in seen:
             e = engine.match_known("C11", c, {"leak": True})
